@@ -1,7 +1,11 @@
 (** C36 — parked sends and Close: once the queue is closed every parked send can return,
     with an error, and is then gone from the set of parked sends ("no send blocks for ever
     after close").  Wait-forever sends of both priorities select on the topic's done
-    channel; timed sends have their timer. *)
+    channel; timed sends have their timer.  Since Queue.Close is modelled in two parts this
+    needs a guard: a send that parks between the walk over the topics and isClose = 1 on a
+    topic created after the walk is never woken by the close (finding 6).
+    (The purely existential form "some continuation lets it return" holds trivially -- a
+    third client could subscribe to the late topic and close itself -- and is not stated.) *)
 From Coq Require Import List NArith Bool Lia.
 From C33 Require Import C36.Model C36.ProofsBase C36.ProofsClose.
 Import ListNotations.
@@ -77,12 +81,6 @@ Proof.
   intros; eapply pend_nodup_step; eauto.
 Qed.
 
-(** *** the full-strength statement *)
-Definition no_block_forever_full : Prop :=
-  forall cp tr s p pd, run (init cp) tr = Some s -> s_qclosed s = true ->
-    pend_get p (s_pend s) = Some pd ->
-    exists tr2 s2, run s tr2 = Some s2 /\ pend_get p (s_pend s2) = None.
-
 (* subscriber 0 on topic 0 stops draining; requester 1 fills recv (1), the pump's hand (1)
    and the low channel (1), parks one more Send(msg,false) (#7); then the subscriber reads
    one message, Client.Close of 0 runs to the end, Queue.Close.  (Before the repair of
@@ -106,6 +104,16 @@ Lemma witness_runs :
             /\ step s (EUnblock 7 SErrChan) = Some s2 /\ s_pend s2 = [].
 Proof. eexists _, _. split; [vm_compute; reflexivity|]. vm_compute. intuition. Qed.
 
+Lemma high_sender_woken_runs :
+  exists s pd s2, run (init (mkCaps 1 1 5))
+                 [ENew 0 0 1; ESend 1 0 true MNow SOk; ENew 1 0 2; EBlock 9 1 1 true MForever; ECloseQueue] = Some s
+               /\ s_qclosed s = true /\ pend_get 9 (s_pend s) = Some pd /\ p_high pd = true
+               /\ step s (EUnblock 9 SErrChan) = Some s2 /\ s_pend s2 = [].
+Proof.
+  eexists _, _, _. split; [vm_compute; reflexivity|]. split; [vm_compute; reflexivity|].
+  split; [vm_compute; reflexivity|]. split; [vm_compute; reflexivity|]. split; vm_compute; reflexivity.
+Qed.
+
 Definition tkeys (s : state) : list N := map fst (s_topics s).
 
 Lemma aset_keys {A} k (v : A) m k' : In k' (map fst m) -> In k' (map fst (aset k v m)).
@@ -119,9 +127,9 @@ Proof.
   destruct (k =? k0) eqn:E; simpl; auto.
 Qed.
 
+(** the topic of a parked send exists (all traces) *)
 Definition pend_inv (s : state) : Prop :=
-  forall p pd, In (p, pd) (s_pend s) ->
-    In (p_topic pd) (tkeys s) /\ (s_qclosed s = true -> t_closed (gt s (p_topic pd)) = true).
+  forall p pd, In (p, pd) (s_pend s) -> In (p_topic pd) (tkeys s).
 
 Lemma tkeys_mono s e s' t : step s e = Some s' -> In t (tkeys s) -> In t (tkeys s').
 Proof.
@@ -131,7 +139,7 @@ Proof.
            | x : item |- _ => destruct x; simpl
            | |- In _ (map fst (aset _ _ _)) => apply aset_keys
            end; auto.
-  rewrite map_map; simpl. exact Hin.
+  all: unfold close_all; rewrite map_map; simpl; exact Hin.
 Qed.
 
 Lemma pend_inv_init cp : pend_inv (init cp).
@@ -140,20 +148,12 @@ Proof. intros p pd []. Qed.
 Lemma pend_inv_step s e s' : pend_inv s -> step s e = Some s' -> pend_inv s'.
 Proof.
   intros I H p pd Hin.
-  assert (Hold : In (p, pd) (s_pend s) ->
-                 In (p_topic pd) (tkeys s') /\ (s_qclosed s' = true -> t_closed (gt s' (p_topic pd)) = true)).
-  { intros Hi. destruct (I _ _ Hi) as [Hk Hc]. split; [eapply tkeys_mono; eauto|].
-    intros Hq'. destruct (s_qclosed s) eqn:Eq.
-    - eapply tclosed_mono; eauto.
-    - (* the queue is closed by this very step *)
-      destruct e; try (step_inv H; autorewrite with frame in Hq'; congruence).
-      eapply close_queue_closes_all; [exact H|exact Eq|exact Hk]. }
+  assert (Hold : In (p, pd) (s_pend s) -> In (p_topic pd) (tkeys s')).
+  { intros Hi. eapply tkeys_mono; eauto. }
   destruct e; try (apply Hold; step_inv H; autorewrite with frame in Hin; exact Hin).
   - (* EBlock *)
     step_inv H; autorewrite with frame in Hin; destruct Hin as [Heq|Hin]; try (apply Hold; exact Hin).
-    all: injection Heq as <- <-; simpl; split;
-      [unfold tkeys; simpl; apply aset_key_in
-      |autorewrite with frame; unfold pre_check in *; break_match_hyp E; congruence].
+    all: injection Heq as <- <-; simpl; unfold tkeys; simpl; apply aset_key_in.
   - (* EUnblock *)
     apply Hold. step_inv H; autorewrite with frame in Hin; eapply pend_del_in; eauto.
 Qed.
@@ -164,26 +164,147 @@ Proof.
   intros; eapply pend_inv_step; eauto.
 Qed.
 
-(** every parked send can return once the queue is closed; it returns an error and is no
-    longer parked afterwards *)
-Lemma parked_send_returns_error_proof :
+(** isClose = 1 is stored after the topics were walked *)
+Definition qflags (s : state) : Prop := s_qclosed s = true -> s_qclosing s = true.
+Lemma qflags_step s e s' : qflags s -> step s e = Some s' -> qflags s'.
+Proof.
+  unfold qflags. intros I H.
+  destruct e; step_inv H; autorewrite with frame; bool_hyps; auto; try congruence.
+Qed.
+Lemma reachable_qflags cp s : reachable cp s -> qflags s.
+Proof.
+  intros [tr Hr]. eapply (run_invariant qflags); eauto; [intros; eapply qflags_step; eauto|discriminate].
+Qed.
+
+(** *** guarded runs *)
+Lemma grun_run g tr : forall s s', grun g s tr = Some s' -> run s tr = Some s'.
+Proof.
+  induction tr as [|e tr IH]; intros s s' H; simpl in *; [exact H|].
+  destruct (g s e); [|discriminate]. destruct (step s e); [apply IH; exact H|discriminate].
+Qed.
+Lemma grun_invariant g (P : state -> Prop) :
+  (forall s e s', P s -> g s e = true -> step s e = Some s' -> P s') ->
+  forall tr s s', P s -> grun g s tr = Some s' -> P s'.
+Proof.
+  intros Hstep tr; induction tr as [|e tr IH]; intros s s' HP Hr; simpl in Hr.
+  - injection Hr as <-; exact HP.
+  - destruct (g s e) eqn:G; [|discriminate].
+    destruct (step s e) as [s1|] eqn:E; [|discriminate]. eapply IH; [|exact Hr]. eapply Hstep; eauto.
+Qed.
+Lemma grun_true tr : forall s, grun (fun _ _ => true) s tr = run s tr.
+Proof. induction tr as [|e tr IH]; intros s; simpl; [reflexivity|]. destruct (step s e); auto. Qed.
+
+(** as long as no send parks while Queue.Close is between its loop and isClose = 1, the
+    topic of every parked send is closed once the loop has run *)
+Definition pend_closed (s : state) : Prop :=
+  pend_inv s /\
+  (s_qclosing s = true -> forall p pd, In (p, pd) (s_pend s) -> t_closed (gt s (p_topic pd)) = true).
+
+Lemma pend_closed_init cp : pend_closed (init cp).
+Proof. split; [apply pend_inv_init|intros _ p pd []]. Qed.
+
+Lemma pend_closed_step s e s' :
+  pend_closed s -> bdisc s e = true -> step s e = Some s' -> pend_closed s'.
+Proof.
+  intros [I J] G H. split; [eapply pend_inv_step; eauto|].
+  intros Hq' p pd Hin.
+  assert (Hold : In (p, pd) (s_pend s) -> t_closed (gt s' (p_topic pd)) = true).
+  { intros Hi. destruct (s_qclosing s) eqn:Eq.
+    - eapply tclosed_mono; eauto.
+    - (* the topics are walked by this very step *)
+      destruct e; try (step_inv H; autorewrite with frame in Hq'; congruence).
+      + eapply close_queue_closes_all; [exact H| |apply (I _ _ Hi)].
+        simpl in H. destruct (s_qclosed s); [injection H as <-; congruence|reflexivity].
+      + eapply close_qbegin_closes_all; [exact H|apply (I _ _ Hi)]. }
+  destruct e; try (apply Hold; step_inv H; autorewrite with frame in Hin; exact Hin).
+  - (* EBlock: excluded by the guard once the loop has run *)
+    simpl in G. apply negb_true_iff in G.
+    step_inv H; autorewrite with frame in Hq'; congruence.
+  - (* EUnblock *)
+    apply Hold. step_inv H; autorewrite with frame in Hin; eapply pend_del_in; eauto.
+Qed.
+
+Lemma brun_pend_closed cp tr s : grun bdisc (init cp) tr = Some s -> pend_closed s.
+Proof.
+  intros Hr. eapply (grun_invariant bdisc pend_closed); eauto using pend_closed_init.
+  intros; eapply pend_closed_step; eauto.
+Qed.
+
+(** *** the statements *)
+Definition parked_send_returns_error_full : Prop :=
   forall cp tr s p pd, run (init cp) tr = Some s -> s_qclosed s = true ->
     pend_get p (s_pend s) = Some pd ->
     exists r s2, is_err r = true /\ step s (EUnblock p r) = Some s2 /\ pend_get p (s_pend s2) = None.
+
+(* a wait-forever send that passed q.isClosed() before the store, reached a topic created
+   after the loop (open, inside the closed queue) and found it full: nothing wakes it *)
+Definition late_park_trace : list event :=
+  [ ECloseQBegin; ENew 0 7 1; ESend 1 0 true MNow SOk; ENew 1 7 2; EBlock 9 1 1 true MForever; ECloseQEnd ].
+
+Lemma late_park_runs :
+  exists s, run (init (mkCaps 1 1 5)) late_park_trace = Some s
+            /\ s_qclosed s = true /\ t_closed (gt s 7) = false
+            /\ pend_get 9 (s_pend s) = Some (mkP 1 1 true false 7)
+            /\ forall r, is_err r = true -> step s (EUnblock 9 r) = None.
 Proof.
-  intros cp tr s p pd Hr Hq Hg.
+  eexists. split; [vm_compute; reflexivity|]. repeat split; try (vm_compute; reflexivity).
+  intros r Hr. destruct r; try discriminate Hr; vm_compute; reflexivity.
+Qed.
+
+Lemma parked_send_returns_error_refuted : ~ parked_send_returns_error_full.
+Proof.
+  intros F. destruct late_park_runs as (s & Hr & Hq & _ & Hg & Hn).
+  destruct (F _ _ _ _ _ Hr Hq Hg) as (r & s2 & He & Hs & _).
+  rewrite (Hn r He) in Hs. discriminate.
+Qed.
+
+(** every parked send can return once the queue is closed; it returns an error and is no
+    longer parked afterwards -- in runs where no send parks inside Queue.Close's window *)
+Lemma parked_send_returns_error_proof :
+  forall cp tr s p pd, grun bdisc (init cp) tr = Some s -> s_qclosed s = true ->
+    pend_get p (s_pend s) = Some pd ->
+    exists r s2, is_err r = true /\ step s (EUnblock p r) = Some s2 /\ pend_get p (s_pend s2) = None.
+Proof.
+  intros cp tr s p pd Hb Hq Hg.
+  pose proof (grun_run _ _ _ _ Hb) as Hr.
   pose proof (reachable_pend_nodup cp s (ex_intro _ tr Hr)) as Hnd.
+  pose proof (reachable_qflags cp s (ex_intro _ tr Hr) Hq) as Hqq.
   destruct (p_timed pd) eqn:Et.
   - exists STimeout. eexists. split; [reflexivity|]. simpl. rewrite Hg, Et. split; [reflexivity|].
     autorewrite with frame. apply pend_get_del_same, Hnd.
-  - destruct (reachable_pend_inv cp s (ex_intro _ tr Hr) _ _ (pend_get_in _ _ _ Hg)) as [_ Hc].
-    exists SErrChan. eexists. split; [reflexivity|]. simpl. rewrite Hg, Et, (Hc Hq). simpl. split; [reflexivity|].
+  - destruct (brun_pend_closed cp tr s Hb) as [_ Hc].
+    pose proof (Hc Hqq _ _ (pend_get_in _ _ _ Hg)) as Hcl.
+    exists SErrChan. eexists. split; [reflexivity|]. simpl. rewrite Hg, Et, Hcl. simpl. split; [reflexivity|].
     autorewrite with frame. apply pend_get_del_same, Hnd.
 Qed.
 
-Lemma no_block_forever_proof : no_block_forever_full.
+Definition no_block_forever_stmt : Prop :=
+  forall cp tr s p pd, grun bdisc (init cp) tr = Some s -> s_qclosed s = true ->
+    pend_get p (s_pend s) = Some pd ->
+    exists tr2 s2, run s tr2 = Some s2 /\ pend_get p (s_pend s2) = None.
+
+Lemma no_block_forever_proof : no_block_forever_stmt.
 Proof.
   intros cp tr s p pd Hr Hq Hg.
   destruct (parked_send_returns_error_proof cp tr s p pd Hr Hq Hg) as (r & s2 & _ & Hs & Hn).
   exists [EUnblock p r], s2. split; [cbn [run]; rewrite Hs; reflexivity|exact Hn].
+Qed.
+
+(* the guard is met by every trace without the split close events (the scope of the
+   statements before Queue.Close was split) *)
+Lemma bdisc_atomic tr : forall s s',
+  (s_qclosing s = true -> s_qclosed s = true) ->
+  forallb (fun e => match e with ECloseQBegin => false | _ => true end) tr = true ->
+  run s tr = Some s' -> grun bdisc s tr = Some s'.
+Proof.
+  induction tr as [|e tr IH]; intros s s' I Hf Hr; simpl in *; [exact Hr|].
+  apply andb_true_iff in Hf as [He Hf].
+  destruct (step s e) as [s1|] eqn:E; [|discriminate].
+  assert (G : bdisc s e = true).
+  { destruct e; try reflexivity. simpl. destruct (s_qclosing s) eqn:Q; [|reflexivity].
+    exfalso. simpl in E. unfold pre_check in E. rewrite (I eq_refl) in E.
+    destruct (c_closed (gc s c)); simpl in E; discriminate. }
+  rewrite G. apply IH; auto.
+  intros Q1. destruct e; try discriminate He;
+    step_inv E; autorewrite with frame in *; bool_hyps; auto; congruence.
 Qed.
